@@ -153,28 +153,31 @@ def invalidSep (x : List UInt8) : Option Nat :=
     else invalidSepLoop false x 0 .other
   | _ => invalidSepLoop false x 0 .other
 
+/-- `if tok == token.INT && invalid >= 0 { s.errorf(invalid, "invalid digit %q in %s", lit[invalid-offs], litname(prefix)) }` -/
+def numInvalidErr (st : St) (offs : Nat) (lit : List UInt8) (ns : NS) : St :=
+  match ns.invalid with
+  | some inv =>
+    if ns.tok = .int then
+      if offs ≤ inv then
+        match (lit[inv - offs]? : Option UInt8) with
+        | some dch => st.error inv (.invalidDigit dch.toNat (litname ns.pfx))
+        | none => st.setFail .panic
+      else st.setFail .panic
+    else st
+  | none => st
+
+/-- `if digsep&2 != 0 { if i := invalidSep(lit); i >= 0 { s.error(offs+i, "'_' must separate successive digits") } }` -/
+def numSepErr (st : St) (offs : Nat) (lit : List UInt8) (ns : NS) : St :=
+  if ns.hasSep then
+    match invalidSep lit with
+    | some i => st.error (offs + i) .sepMustSeparate
+    | none => st
+  else st
+
 /-- tail of `scanNumber`: the literal and the two errors that need it -/
 def numFinish (src : Array UInt8) (offs : Nat) (ns : NS) : St × NumKind × List UInt8 :=
   let r := sliceP src ns.st offs (ns.st.off - ns.st.unitVal.length)
-  let lit := r.2
-  let st1 :=
-    match ns.invalid with
-    | some inv =>
-      if ns.tok = .int then
-        if offs ≤ inv then
-          match (lit[inv - offs]? : Option UInt8) with
-          | some dch => r.1.error inv (.invalidDigit dch.toNat (litname ns.pfx))
-          | none => r.1.setFail .panic
-        else r.1.setFail .panic
-      else r.1
-    | none => r.1
-  let st2 :=
-    if ns.hasSep then
-      match invalidSep lit with
-      | some i => st1.error (offs + i) .sepMustSeparate
-      | none => st1
-    else st1
-  (st2, ns.tok, lit)
+  (numSepErr (numInvalidErr r.1 offs r.2 ns) offs r.2 ns, ns.tok, r.2)
 
 def scanNumber (d : Dialect) (U : UCls) (src : Array UInt8) (fuel : Nat) (st0 : St) :
     St × NumKind × List UInt8 :=
